@@ -3,6 +3,7 @@ package exec
 import (
 	"fmt"
 	"go/types"
+	"math"
 	"math/bits"
 	"strconv"
 	"strings"
@@ -342,9 +343,30 @@ func init() {
 	reg("sync.runtime_SemacquireRWMutex", nop)
 	reg("internal/sync.runtime_Semrelease", nop)
 	reg("internal/sync.runtime_SemacquireMutex", nop)
-	reg("(*sync.Pool).Put", nop)
+	// sync.Pool is modelled as a LIFO that never drops an item (the behaviour
+	// of a single goroutine between collections): Get returns the value Put
+	// last, else New().
+	reg("(*sync.Pool).Put", func(in *Interp, fn *ssa.Function, a []Value) Value {
+		p := asPtr(a[0])
+		if iv, ok := a[1].(Iface); ok && iv.T == nil {
+			return nil
+		}
+		if in.pools == nil {
+			in.pools = map[*Value][]Value{}
+		}
+		old := in.pools[p]
+		in.pools[p] = append(old[:len(old):len(old)], a[1])
+		in.logUndo(func() { in.pools[p] = old })
+		return nil
+	})
 	reg("(*sync.Pool).Get", func(in *Interp, fn *ssa.Function, a []Value) Value {
 		p := asPtr(a[0])
+		if items := in.pools[p]; len(items) > 0 {
+			v := items[len(items)-1]
+			in.pools[p] = items[:len(items)-1]
+			in.logUndo(func() { in.pools[p] = items })
+			return v
+		}
 		st := fn.Signature.Recv().Type().Underlying().(*types.Pointer).Elem().Underlying().(*types.Struct)
 		for i := 0; i < st.NumFields(); i++ {
 			if st.Field(i).Name() == "New" {
@@ -360,6 +382,57 @@ func init() {
 	for _, n := range []string{"BoolVar", "StringVar", "IntVar", "Int64Var", "UintVar", "Uint64Var", "Float64Var", "DurationVar", "Var", "Parse", "TextVar", "Func", "BoolFunc"} {
 		reg("flag."+n, nop)
 	}
+	// --- math on concrete floats (the engine has no symbolic floats) ---
+	f1 := map[string]func(float64) float64{"Abs": math.Abs, "Sqrt": math.Sqrt, "Floor": math.Floor, "Ceil": math.Ceil, "Trunc": math.Trunc,
+		"Round": math.Round, "Log": math.Log, "Log2": math.Log2, "Log10": math.Log10, "Exp": math.Exp}
+	for name, f := range f1 {
+		f := f
+		reg("math."+name, func(in *Interp, fn *ssa.Function, a []Value) Value {
+			x, ok := a[0].(float64)
+			if !ok {
+				in.unsupported("math.%s of a symbolic value", fn.Name())
+			}
+			return f(x)
+		})
+	}
+	f2 := map[string]func(float64, float64) float64{"Pow": math.Pow, "Mod": math.Mod, "Max": math.Max, "Min": math.Min, "Copysign": math.Copysign}
+	for name, f := range f2 {
+		f := f
+		reg("math."+name, func(in *Interp, fn *ssa.Function, a []Value) Value {
+			x, ok1 := a[0].(float64)
+			y, ok2 := a[1].(float64)
+			if !ok1 || !ok2 {
+				in.unsupported("math.%s of a symbolic value", fn.Name())
+			}
+			return f(x, y)
+		})
+	}
+	reg("math.IsNaN", func(in *Interp, fn *ssa.Function, a []Value) Value { return sym.Bool(math.IsNaN(a[0].(float64))) })
+	reg("math.IsInf", func(in *Interp, fn *ssa.Function, a []Value) Value {
+		sgn, ok := a[1].(*sym.Term)
+		if !ok || !sgn.IsConst() {
+			in.unsupported("math.IsInf with a symbolic sign")
+		}
+		return sym.Bool(math.IsInf(a[0].(float64), int(int64(sgn.C))))
+	})
+	reg("math.Inf", func(in *Interp, fn *ssa.Function, a []Value) Value {
+		sgn, ok := a[0].(*sym.Term)
+		if !ok || !sgn.IsConst() {
+			in.unsupported("math.Inf with a symbolic sign")
+		}
+		return math.Inf(int(int64(sgn.C)))
+	})
+	reg("math.NaN", func(in *Interp, fn *ssa.Function, a []Value) Value { return math.NaN() })
+	reg("math.Float64bits", func(in *Interp, fn *ssa.Function, a []Value) Value {
+		return sym.BV(math.Float64bits(a[0].(float64)), 64)
+	})
+	reg("math.Float64frombits", func(in *Interp, fn *ssa.Function, a []Value) Value {
+		b, ok := a[0].(*sym.Term)
+		if !ok || !b.IsConst() {
+			in.unsupported("math.Float64frombits of a symbolic value")
+		}
+		return math.Float64frombits(b.C)
+	})
 	reg("runtime.KeepAlive", nop)
 	reg("runtime.SetFinalizer", nop)
 	reg("runtime.GC", nop)
